@@ -22,6 +22,7 @@ package main
 import (
 	"bytes"
 	"context"
+	crand "crypto/rand"
 	"crypto/sha256"
 	"encoding/binary"
 	"encoding/hex"
@@ -42,6 +43,7 @@ import (
 
 	"github.com/tetratelabs/wazero"
 	"github.com/tetratelabs/wazero/api"
+	"github.com/tetratelabs/wazero/experimental"
 	"github.com/tetratelabs/wazero/imports/wasi_snapshot_preview1"
 	"github.com/tetratelabs/wazero/internal/platform"
 	"github.com/tetratelabs/wazero/sys"
@@ -157,8 +159,40 @@ func childMain() {
 			out.Fault = "instantiate b: " + err.Error()
 			break
 		}
+		// ViaApp: the embedder calls another guest module, instantiated with a rich NON-default configuration, which
+		// calls the default-configured module's run: whose context serves a WASI call is decided by whose code makes it
+		entry := map[api.Module]api.Module{}
+		if p.ViaApp {
+			rich := wazero.NewModuleConfig().WithArgs("app", "--secret", "s3cr3t").WithEnv("APP_ENV", "leak").
+				WithSysWalltime().WithSysNanotime().WithSysNanosleep().WithRandSource(crand.Reader).
+				WithStdin(strings.NewReader("app stdin")).WithStdout(io.Discard).WithStderr(io.Discard)
+			fail := false
+			for k, lib := range []api.Module{a, b} {
+				// (instances are anonymous: the app finds its library through an import resolver)
+				lib := lib
+				ictx := experimental.WithImportResolver(ctx, func(name string) api.Module {
+					if name == "lib" {
+						return lib
+					}
+					return nil
+				})
+				app, err := rt.InstantiateWithConfig(ictx, appWasm("lib"), rich.WithName(""))
+				if err != nil {
+					out.Fault = fmt.Sprintf("instantiate app %d: %v", k, err)
+					fail = true
+					break
+				}
+				entry[lib] = app
+			}
+			if fail {
+				break
+			}
+		}
 		// a default context never blocks; 20 s is > 1000x the slowest normal run
 		call := func(m api.Module) (error, bool) {
+			if e, ok := entry[m]; ok {
+				m = e
+			}
 			done := make(chan error, 1)
 			cctx, cancel := ctx, context.CancelFunc(func() {})
 			switch j.CtxKind {
